@@ -22,10 +22,10 @@ sys.path.insert(0, os.path.dirname(os.path.dirname(os.path.abspath(__file__))))
 import common  # noqa: E402
 
 KEY_MIDSEND = "c10:worker-killed-mid-result-send:manager-blocked-in-recv"
-DEATH_IN_TASK = ("respawn", "mgr_busy", "arg_unpickle", "task_start", "mid_task", "result_pickle", "mid_send", "after_send")
+DEATH_IN_TASK = ("dispatching", "stubborn", "respawn", "mgr_busy", "arg_unpickle", "task_start", "mid_task", "result_pickle", "mid_send", "after_send")
 UNSERIALIZE = ("arg_unloadable", "result_garbage")
 BETWEEN = ("idle_settled", "idle_unsettled", "startup_gen", "startup_reduce", "submit_window")
-TRAP = {"respawn": "TDie", "mgr_busy": "TDieBusy", "arg_unpickle": "TDie", "task_start": "TDie", "mid_task": "TDie", "result_pickle": "TDie",
+TRAP = {"dispatching": "TDie", "stubborn": "TDie", "respawn": "TDie", "mgr_busy": "TDieBusy", "arg_unpickle": "TDie", "task_start": "TDie", "mid_task": "TDie", "result_pickle": "TDie",
         "mid_send": "TMidSend", "after_send": "TAfterSend", "result_garbage": "TGarbage",
         "arg_unloadable": "TBadArgs"}
 
@@ -37,18 +37,16 @@ EXTRA_SIGNALS = EXIT_STATUSES + ["SIGRT+1", "SIGRT+5", "SIGRT+12", "SIGRT+29", "
 
 # ------------------------------------------------------------------ scenarios
 def sc(kind, how="SIGKILL", n_jobs=2, victims=(0,), managed=False, n_tasks=8, sleep=0.05, gen=False, big=0,
-       watchdog=60, n_tasks1=None, sigchld=None):
+       watchdog=60, **extra):
+    """extra: n_tasks1 (tasks of the fault call), sigchld, pre_dispatch, probe (lock-order probe)"""
     if kind == "mid_send":
         watchdog = 12          # the known finding F27 hangs: do not wait a minute for it
-    if sigchld:
-        d = sc(kind, how, n_jobs, victims, managed, n_tasks, sleep, gen, big, watchdog, n_tasks1)
-        d["sigchld"] = sigchld
-        return d
-    if n_tasks1:
-        return {"kind": kind, "how": how, "n_jobs": n_jobs, "victims": list(victims), "managed": managed,
-                "n_tasks": n_tasks, "sleep": sleep, "gen": gen, "big": big, "watchdog": watchdog, "n_tasks1": n_tasks1}
-    return {"kind": kind, "how": how, "n_jobs": n_jobs, "victims": list(victims), "managed": managed,
-            "n_tasks": n_tasks, "sleep": sleep, "gen": gen, "big": big, "watchdog": watchdog}
+    if kind == "stubborn":
+        watchdog = min(watchdog, 25)   # the SIGTERM-proof siblings sleep 600 s: a late error must hit the watchdog
+    d = {"kind": kind, "how": how, "n_jobs": n_jobs, "victims": list(victims), "managed": managed,
+         "n_tasks": n_tasks, "sleep": sleep, "gen": gen, "big": big, "watchdog": watchdog}
+    d.update({k: v for k, v in extra.items() if v is not None})
+    return d
 
 
 def quick_scenarios(rng):
@@ -134,6 +132,18 @@ def quick_scenarios(rng):
         sc("mid_task", "SIGKILL", 3, [2], managed=True, sigchld="reaper"),
         sc("mid_task", "exit:0", 2, [0], sigchld="reaper"),
         sc("idle_settled", "SIGKILL", 2, [1], sigchld="reaper"),
+        # the siblings of the victim ignore SIGTERM/SIGINT and run for 600 s: kill_workers must really kill them
+        # (error within the watchdog, siblings gone afterwards)
+        sc("stubborn", "SIGKILL", 3, [0], n_tasks=3),
+        sc("stubborn", "exit:0", 2, [1], managed=True, n_tasks=2),
+        # the victim dies while the CALLER IS STILL DISPATCHING (pre_dispatch='all' / large, slow input generator): the
+        # manager fails the futures (callbacks take Parallel._lock) while the caller holds Parallel._lock and submits
+        sc("dispatching", "exit", 2, [0], n_tasks=10, pre_dispatch="all", probe=True),
+        sc("dispatching", "SIGKILL", 3, [0], managed=True, n_tasks=10, pre_dispatch="all"),
+        sc("dispatching", "exit:0", 2, [0], n_tasks=10, pre_dispatch="4*n_jobs"),
+        # lock-order probe on ordinary instants: no completion callback may run in a thread holding shutdown_lock
+        sc("mid_task", "SIGKILL", 2, [1], probe=True),
+        sc("idle_settled", "SIGKILL", 2, [0], managed=True, probe=True),
         sc("respawn", "exit:0", 2, [0], n_tasks1=1),
         sc("respawn", "SIGKILL", 2, [0], n_tasks1=1),
         sc("respawn", "exit", 3, [0], managed=True, n_tasks1=1),
@@ -145,7 +155,7 @@ def quick_scenarios(rng):
 
 def random_scenarios(rng, n, allow_midsend=False):
     out = []
-    kinds = ["respawn", "mgr_busy", "submit_window", "arg_unpickle", "task_start", "mid_task", "result_pickle", "after_send",
+    kinds = ["dispatching", "stubborn", "respawn", "mgr_busy", "submit_window", "arg_unpickle", "task_start", "mid_task", "result_pickle", "after_send",
              "idle_settled", "idle_unsettled", "startup_gen", "startup_reduce", "arg_unloadable", "result_garbage"]
     for _ in range(n):
         kind = rng.choice(kinds + (["mid_send"] if allow_midsend else []))
@@ -156,6 +166,8 @@ def random_scenarios(rng, n, allow_midsend=False):
             how = rng.choice(["SIGKILL", "SIGSEGV", "SIGTERM"] + EXTRA_SIGNALS)
         elif kind == "after_send":
             victims, how = [0], rng.choice(["SIGKILL", "exit:0", "exit:3"])
+        elif kind in ("dispatching", "stubborn"):
+            victims, how = [0], rng.choice(["SIGKILL", "exit:0", "exit:3", "SIGSEGV"])
         elif kind == "respawn":
             victims, how = [0], rng.choice(["SIGKILL", "SIGSEGV", "exit"] + EXTRA_SIGNALS)
         elif kind == "mgr_busy":
@@ -165,7 +177,11 @@ def random_scenarios(rng, n, allow_midsend=False):
         else:
             victims = sorted(rng.sample(range(n_tasks), rng.randint(1, min(n_jobs, 3))))
             how = rng.choice(["SIGKILL", "SIGSEGV", "exit"] + EXTRA_SIGNALS)
+        if kind == "stubborn":
+            n_tasks = n_jobs
         out.append(sc(kind, how, n_jobs, victims, managed=rng.random() < 0.5, n_tasks=n_tasks,
+                      pre_dispatch=(rng.choice(["all", "4*n_jobs"]) if kind == "dispatching" else None),
+                      probe=(True if rng.random() < 0.2 else None),
                       n_tasks1=(rng.choice([1, None]) if kind == "respawn" else None),
                       sigchld=(rng.choice(["ign", "reaper"]) if rng.random() < 0.12 else None),
                       sleep=0.2 if kind == "after_send" else rng.choice([0.0, 0.02, 0.05]),
@@ -218,6 +234,8 @@ def collect(h):
            "rc": p.returncode, "hung_call": None, "dump": dumptxt[-6000:],
            "victim_pids": next((r["victim_pids"] for r in lines if "victim_pids" in r), []),
            "noticed": next((r["noticed"] for r in lines if "noticed" in r), None),
+           "probe": next((r["probe"] for r in lines if "probe" in r), None),
+           "stubborn_alive": next((r["stubborn_alive"] for r in lines if "stubborn_alive" in r), None),
            "wall": round(time.time() - h["t0"], 2)}
     if not done:
         pend = [k for k in started if k not in calls]
@@ -298,6 +316,13 @@ def oracle(s, r):
         if c in (3, 5):
             bad.append("call %d raised %s (%s): not a worker-termination error" % (
                 k, r["calls"][k].get("exc"), r["calls"][k].get("msg", "")[:100]))
+    if r.get("probe") and r["probe"]["cb_under_lock"]:
+        bad.append("%d completion callback(s) ran in a thread that held the executor's shutdown_lock: lock-order inversion "
+                   "with Parallel._lock (a dispatching caller holds Parallel._lock and takes shutdown_lock in submit): "
+                   "deadlock when a worker dies while the caller is dispatching" % r["probe"]["cb_under_lock"])
+    if r.get("stubborn_alive"):
+        bad.append("workers %s of the broken executor are still alive after the call raised (they ignore SIGTERM): "
+                   "kill_workers did not kill them" % r["stubborn_alive"])
     failing = [k for k in (1, 2, 3) if cl[k] != 0]
     if kind == "none":
         if failing:
@@ -377,7 +402,8 @@ def macros(s, variant):
         n1 = s.get("n_tasks1") or n
         if kind == "respawn":
             m += ["MRetireAll"]
-        m += ["MCall %d %d [%s]" % (n1, min(n1, burst), tr), "MRounds %d" % R]
+        b1 = 2 if kind == "dispatching" else min(n1, burst)     # the death happens after the first two submits
+        m += ["MCall %d %d [%s]" % (n1, b1, tr), "MRounds %d" % R]
     elif kind in ("idle_settled", "idle_unsettled"):
         m += kills + (["MMgr 3"] if variant == "plain" else []) + ok_call
     elif kind == "startup_gen":
